@@ -40,8 +40,9 @@ import (
 func init() {
 	RegisterTxKind("c11.commit", c11Commit)
 	RegisterTxKind("c11.fundrt", c11FundRuntime)
+	RegisterTxKind("c11.evidence", c11Evidence)
 	RegisterWorkload("C11", &Workload{
-		Kinds:     []string{"c11.commit", "c11.commit", "c11.commit", "c11.commit", "c11.commit", "c11.commit", "c11.commit", "c11.commit", "c11.commit", "c11.commit", "c14_fundnode", "submitmsg", "c11.fundrt"},
+		Kinds:     []string{"c11.commit", "c11.commit", "c11.commit", "c11.commit", "c11.commit", "c11.commit", "c11.commit", "c11.commit", "c11.commit", "c11.commit", "c14_fundnode", "submitmsg", "c11.fundrt", "c11.evidence"},
 		Weight:    70,
 		Tune:      c11Tune,
 		ArgGen:    c11ArgGen,
@@ -624,4 +625,76 @@ func c11FundRuntime(w *World, op TxOp, v TxView, signer signature.Signer, fee *t
 	nonce := uint64(int64(v.NextNonce(signer.Public())) + int64(op.NonceOff))
 	amt := quantity.NewFromUint64(uint64(100 + op.Arg%900))
 	return staking.NewTransferTx(nonce, fee, &staking.Transfer{To: staking.NewRuntimeAddress(w.RuntimeID), Amount: *amt}), signer, nil
+}
+
+// c11Evidence builds a roothash.Evidence transaction: two commitments signed by one compute node
+// for one round and scheduler that differ (equivocation), or one of the flawed variants: the
+// same commitment twice, commitments of two different nodes, a round older than the maximum
+// evidence age, a node the harness made up, a failure indication against a regular commitment
+// (valid equivocation).  A runtime that slashes for equivocation takes the penalty from the
+// node's entity and splits it between the runtime account and the submitter (or, when the
+// submitter is a node, its entity).
+func c11Evidence(w *World, op TxOp, v TxView, signer signature.Signer, fee *transaction.Fee) (*transaction.Transaction, signature.Signer, error) {
+	cv := c11ReadView(w, v)
+	if cv == nil || len(cv.members) == 0 {
+		return nil, nil, nil
+	}
+	variant := op.Arg % 8
+	pick := func(i int) signature.PublicKey { return cv.members[i%len(cv.members)] }
+	nodeA := pick(op.Arg >> 3)
+	nodeB := nodeA
+	if variant == 5 {
+		nodeB = pick(op.Arg>>3 + 1)
+	}
+	round := cv.round
+	switch (op.Arg >> 7) % 4 {
+	case 1:
+		if round > 0 {
+			round--
+		}
+	case 2:
+		if round > 3 {
+			round -= 3
+		}
+	}
+	if variant == 7 {
+		round = 0 // (older than the maximum evidence age once enough rounds have passed)
+	}
+	sched := c11SchedulerOfRank(cv.workers, round, 0)
+	mk := func(node signature.PublicKey, tag string, failure bool) *commitment.ExecutorCommitment {
+		nk := cv.keys[node]
+		if nk == nil {
+			return nil
+		}
+		io, st := c11Hash("verif c11 evidence io ", round), c11Hash("verif c11 evidence state ", round, " ", tag)
+		mh := message.MessagesHash(nil)
+		in := message.InMessagesHash(nil)
+		ec := &commitment.ExecutorCommitment{NodeID: node, Header: commitment.ExecutorCommitmentHeader{SchedulerID: sched,
+			Header: commitment.ComputeResultsHeader{Round: round, PreviousHash: cv.prev, IORoot: &io, StateRoot: &st, MessagesHash: &mh, InMessagesHash: &in}}}
+		if failure {
+			ec.Header.SetFailure(commitment.FailureUnknown)
+		}
+		if err := ec.Sign(nk.Identity.NodeSigner, w.RuntimeID); err != nil {
+			return nil
+		}
+		return ec
+	}
+	a := mk(nodeA, "a", false)
+	tagB := "b"
+	if variant == 4 {
+		tagB = "a"
+	}
+	b := mk(nodeB, tagB, variant == 6)
+	if a == nil || b == nil {
+		return nil, nil, nil
+	}
+	// The submitter: an ordinary account, or one of the compute nodes (reward to its entity).
+	if (op.Arg>>9)%3 == 0 {
+		if nk := cv.keys[pick(op.Arg>>3+2)]; nk != nil {
+			signer = nk.Identity.NodeSigner
+		}
+	}
+	nonce := uint64(int64(v.NextNonce(signer.Public())) + int64(op.NonceOff))
+	ev := &roothash.Evidence{ID: w.RuntimeID, EquivocationExecutor: &roothash.EquivocationExecutorEvidence{CommitA: *a, CommitB: *b}}
+	return roothash.NewEvidenceTx(nonce, fee, ev), signer, nil
 }
